@@ -2,7 +2,7 @@
    Also the general single-bit / population-count lemmas reused by C15 and C16. *)
 From Coq Require Import String.
 From CKC Require Import Base.Prelude Base.Reflect Spec.Layout Model.Card Model.Hands Model.Binary.
-From CKC Require Import Proofs.CardFacts.
+From CKC Require Import Proofs.CardBase.
 From CKC Require Import Gen.Consts Gen.Decks Gen.Scan.
 Open Scope N_scope.
 
